@@ -270,6 +270,10 @@ func (g *Graph) Branches() []Branch {
 					switch sw := g.caseOf[cc].(type) {
 					case *ast.SwitchStmt:
 						br.Tag = sw.Tag
+						if sw.Tag == nil {
+							// `switch { case cond: … }` is an if / else-if chain: its case expressions are conditions
+							br.IsCase = false
+						}
 					case *ast.TypeSwitchStmt:
 						br.TypeSwitch = sw
 					}
